@@ -341,7 +341,7 @@ func pkgVars(p *pkgInfo, label string) (vars []string, writes []string) {
 						if o := root(l); o != nil {
 							if name, ok := objs[o]; ok {
 								pos := p.fset.Position(x.Pos())
-								writes = append(writes, fmt.Sprintf("%s assigned at %s:%d", name, relPath(pos.Filename), pos.Line))
+								writes = append(writes, fmt.Sprintf("%s|assigned|%s:%d", name, relPath(pos.Filename), pos.Line))
 							}
 						}
 					}
@@ -349,7 +349,7 @@ func pkgVars(p *pkgInfo, label string) (vars []string, writes []string) {
 					if o := root(x.X); o != nil {
 						if name, ok := objs[o]; ok {
 							pos := p.fset.Position(x.Pos())
-							writes = append(writes, fmt.Sprintf("%s assigned at %s:%d", name, relPath(pos.Filename), pos.Line))
+							writes = append(writes, fmt.Sprintf("%s|assigned|%s:%d", name, relPath(pos.Filename), pos.Line))
 						}
 					}
 				case *ast.UnaryExpr:
@@ -357,7 +357,7 @@ func pkgVars(p *pkgInfo, label string) (vars []string, writes []string) {
 						if o := root(x.X); o != nil {
 							if name, ok := objs[o]; ok {
 								pos := p.fset.Position(x.Pos())
-								writes = append(writes, fmt.Sprintf("%s address-taken at %s:%d", name, relPath(pos.Filename), pos.Line))
+								writes = append(writes, fmt.Sprintf("%s|address-taken|%s:%d", name, relPath(pos.Filename), pos.Line))
 							}
 						}
 					}
@@ -464,7 +464,16 @@ func genFacts(repo string) (string, []string) {
 	}
 	fmt.Fprintf(&sb, "/-- every `range` over a map-typed operand in non-test code -/\ndef mapRanges : List String := %s\n\n", strList(ranges))
 	fmt.Fprintf(&sb, "/-- package-level variables of the non-test code -/\ndef pkgVars : List String := %s\n\n", strList(vars))
-	fmt.Fprintf(&sb, "/-- every statement that assigns a package-level variable or takes its address (outside its declaration) -/\ndef pkgVarWrites : List String := %s\n\n", strList(writes))
+	sb.WriteString("/-- every statement that assigns a package-level variable or takes its address (outside its declaration): (variable, kind, location) -/\ndef pkgVarWrites : List (String × String × String) := [")
+	for i, w := range writes {
+		p := strings.SplitN(w, "|", 3)
+		sep := ","
+		if i == len(writes)-1 {
+			sep = ""
+		}
+		fmt.Fprintf(&sb, "\n  (%s, %s, %s)%s", leanStr(p[0]), leanStr(p[1]), leanStr(p[2]), sep)
+	}
+	sb.WriteString("]\n\n")
 	gen, gerrs := genericFacts(repo)
 	errs = append(errs, gerrs...)
 	sb.WriteString(gen)
